@@ -14,7 +14,7 @@ CLAIMED = {
  "C07": ("tlc-trace", "TLC trace validation of the error-list / outcome laws on long erroneous inputs; non-returning parses observed through a killed child process; bounded model MC_Recover.tla (the parse loop with recovery as a state machine, every input up to length L, any minimum-cost repair applied)", "5 C07"),
  "C08": ("tlc-trace", "TLC trace validation: reduce callbacks (order, arguments, span, parameter) against LRParse.tla; generic-tree mode against action mode", "5 C08"),
  "C09": ("tlc-lexer", "TLC bounded model of Lexer.tla over every small definition x every match environment + trace validation of lrlex runs with the regex engine as environment", "5 C09"),
- "C10": ("tlc-src", "TLC evaluation of YaccSrc.GrammarOf(document) against every accessor of the parsed grammar, over seeded-random documents in several renderings (layout, comments, quoting, declaration order; Original / Grmtools / Eco)", "5 C10"),
+ "C10": ("tlc-src", "TLC evaluation of YaccSrc.GrammarOf(document) against every accessor of the parsed grammar, over seeded-random documents in several renderings (layout, comments, quoting, declaration order; Original / Grmtools / Eco); second route from the rendered text alone: YaccParse.tla (text -> AST) and AstGrammar.tla (AST -> grammar object) predicted exactly (TraceYaccParse.tla)", "5 C10"),
  "C11": ("tlc-src", "TLC evaluation of LexSrc.LexerDefOf(document) (rules, start states, targets, Unescape, spans) and of lexing under the flags the document puts in force; every CTLexerBuilder flag setter against the run-time lexer (TraceCTRT.tla); MarkMap.tla (header/settings map and merge operator: bounded model of the merge laws + trace validation of random operation sequences)", "5 C11"),
  "C12": ("tlc-src", "TLC evaluation of the outcome contract (Totality.tla) on every outcome of the section / Yacc / lex parsers over mutated specifications, each run in a killable child process; the three parsers transcribed (Header.tla, LexParse.tla, YaccParse.tla): trace specifications predict every recorded outcome exactly (AST / lexer definition / section, all spans, errors in order), bounded models check termination and the contract on every short text", "5 C12"),
  "C13": ("tlc-ctrt", "translation validation: generated modules compiled by rustc and run next to the run-time pipeline; TLC compares lexemes, recorded action values / trees and errors with repair sets (TraceCTRT.tla)", "5 C13"),
